@@ -159,7 +159,7 @@ def _brandes(prog, rep, f, kind, edges):
     if len(inner) == 1:
         il = inner[0]
         vv = norm(il.target)
-        okit = m.match(il.iter, 'np.where(P[%s, :])[0]' % w) is not None
+        okit = (m.match(il.iter, 'np.where(P[%s, :])[0]' % w) or m.match(il.iter, 'np.flatnonzero(P[%s, :])' % w)) is not None     # (a row: same positions)
         incs = [s for s in il.body if isinstance(s, ast.AugAssign)]
         defs = {norm(s.targets[0]): s.value for s in il.body if isinstance(s, ast.Assign) and isinstance(s.targets[0], ast.Name)}
         dp_inc = [s for s in incs if m.match(s.target, 'DP[%s]' % vv)]
